@@ -65,6 +65,13 @@ var c06Templates = []string{
 	`(tag ~> $split("-"))[1] & a.$substring(1, 2)`,
 	`$lookup(o, "k") + n.$abs()`,
 	`items[k = "a"].v ~> $string() ~> $pad(-4, "0")`,
+	// the order of an input array as it is, next to programs that sort / reverse it
+	`$string(arr[0]) & "," & $string(arr[1]) & "," & $string(arr[-1]) & tag`,
+	`$string($sort(arr)[0]) & $string($reverse(arr)[0]) & $string(items^(k)[0].v)`,
+	// string literals with escape sequences (decoded while compiling: the "own" and
+	// "register" configurations compile concurrently)
+	`"f\tf\tf\tf\tf\né😀\\" & tag & "\tb\tb\tb\"b\/\n"`,
+	`{"k\t1é": tag}.("A\r\n" & $string($.*) & 'q\"q\\')`,
 	// the random source is process-wide state too; these use it with a deterministic result
 	`($r := $random(); $r >= 0 and $r < 1) ? tag : "random out of range"`,
 	`$string($sort($shuffle(arr))) & tag`,
@@ -152,6 +159,9 @@ func c06Run(w c06Workload) (msg string, st c06Stats) {
 			extra = w.Extra[i%len(w.Extra)]
 		}
 		inputs[i] = c06Input(i, extra)
+		if w.ShareInput && i >= 2 {
+			inputs[i] = inputs[i%2] // goroutines of the same parity read one and the same input object
+		}
 	}
 	texts := w.Texts
 	// sequential baseline, computed with fresh Exprs and fresh inputs
@@ -190,6 +200,10 @@ func c06Run(w c06Workload) (msg string, st c06Stats) {
 	// shared input objects (read-only sharing between goroutines)
 	decoded := make([]interface{}, G)
 	for i := range decoded {
+		if w.ShareInput && i >= 2 {
+			decoded[i] = decoded[i%2]
+			continue
+		}
 		decoded[i], _ = port.DecodeJSON(inputs[i])
 	}
 	var wg sync.WaitGroup
